@@ -410,21 +410,24 @@ def rand_script(rng: random.Random, n: int) -> list:
     out = []
     for _ in range(n):
         r = rng.random()
-        if r < 0.5:
+        if r < 0.4:
             out.append({'op': 'call'})
-        elif r < 0.72:
+        elif r < 0.55:
             out.append({'op': 'peek'})
-        elif r < 0.85:
+        elif r < 0.75:
             out.append({'op': 'push', 't': rng.choice(PUSHABLE), 'v': cps(rng.choice(['', 'x', 'p q', '\n']))})
-        else:
+        elif r < 0.9:
             out.append({'op': 'expect', 't': rng.choice(EXPECTABLE), 'skip': rng.random() < 0.6})
+        elif r < 0.95:
+            out.append({'op': 'skipnl', 'n': rng.randrange(1, 4)})
+        else:
+            out.append({'op': 'block', 'n': rng.randrange(1, 4), 'brace': rng.random() < 0.5})
     return out
 
 
-def run_script(data, o: dict, script: list) -> dict:
+def apply_script(tok, script: list) -> dict:
+    """Run caller operations on a tokenizer object; every token handed out is one result entry."""
     from srctools.tokenizer import Token
-    toklib.install_step_counter()
-    tok = Tokenizer(data, None, TokenSyntaxError, **toklib.opts_kwargs(o))
     res = []
     err, etype, msg = toklib.NO_ERR, '', ''
     toklib.watchdog_on()
@@ -439,9 +442,27 @@ def run_script(data, o: dict, script: list) -> dict:
             elif op['op'] == 'push':
                 tok.push_back(Token[op['t']], uncps(op['v']))
                 res.append({'t': '', 'v': [], 'l': tok.line_num})
-            else:
+            elif op['op'] == 'expect':
                 v = tok.expect(Token[op['t']], op['skip'])
                 res.append({'t': op['t'], 'v': cps(v), 'l': tok.line_num})
+            elif op['op'] == 'skipnl':
+                it = tok.skipping_newlines()
+                for _ in range(op['n']):
+                    try:
+                        t, v = next(it)
+                    except StopIteration:
+                        res.append({'t': 'STOP', 'v': [], 'l': tok.line_num})
+                        break
+                    res.append({'t': t.name, 'v': cps(v), 'l': tok.line_num})
+            else:
+                it = tok.block('blk', consume_brace=op['brace'])
+                for _ in range(op['n']):
+                    try:
+                        v = next(it)
+                    except StopIteration:
+                        res.append({'t': 'STOP', 'v': [], 'l': tok.line_num})
+                        break
+                    res.append({'t': 'STRING', 'v': cps(v), 'l': tok.line_num})
     except Exception as exc:  # noqa: BLE001
         err, etype, msg = toklib.classify_error(exc, TokenSyntaxError)
     finally:
@@ -449,17 +470,37 @@ def run_script(data, o: dict, script: list) -> dict:
     return {'res': res, 'err': err, 'etype': etype, 'msg': msg}
 
 
+def run_script(data, o: dict, script: list) -> dict:
+    toklib.install_step_counter()
+    return apply_script(Tokenizer(data, None, TokenSyntaxError, **toklib.opts_kwargs(o)), script)
+
+
+def call_forms(text: str):
+    full = (1 << max(len(text) - 1, 0)) - 1
+    yield 'str', lambda: text
+    yield 'lines', lambda: text.splitlines(keepends=True)
+    yield f'cut:{full}', lambda: cut(text, full)
+    yield f'cute:{nasty_cuts(text)}', lambda: with_empties(cut(text, nasty_cuts(text)))
+
+
 def calls_record(text: str, o: dict, script: list, kind: str) -> dict:
+    from srctools.tokenizer import IterTokenizer, Token
+    src = toklib.tokenize(text, o, nchars=len(text))          # the plain run: the observed source stream
     groups: dict = {}
-    for name, make in edge_forms(text):
+    for name, make in call_forms(text):
         toklib.set_step_limit(len(text))
         out = run_script(make(), o, script)
         key = json.dumps(out, sort_keys=True)
         if key not in groups:
             groups[key] = dict(out, forms=[])
         groups[key]['forms'].append(name)
+    it = {'used': False, 'res': [], 'err': toklib.NO_ERR, 'etype': '', 'msg': ''}
+    if src['err']['id'] == 'none':
+        pairs = [(Token[t['t']], uncps(t['v'])) for t in src['toks'] if t['t'] != 'EOF']
+        it = dict(apply_script(IterTokenizer(pairs, '', TokenSyntaxError), script), used=True)
     return {'k': 'calls', 'text': cps(text), 'o': o, 'fold': toklib.fold_table(text), 'etype': ETYPE,
-            'script': script, 'outs': list(groups.values()),
+            'script': script, 'src': {'toks': src['toks'], 'err': src['err'], 'etype': src['etype']},
+            'outs': list(groups.values()), 'iter': it,
             'sig': {'kind': kind, 'action': 'call/peek/push_back/expect',
                     'ops': ','.join(sorted({op['op'] for op in script}))}}
 
@@ -480,6 +521,20 @@ def mode_calls(out: str) -> None:
             for tup in itertools.product(basic, repeat=n):
                 w.write(calls_record(text, toklib.KV_OPTS, list(tup) + [{'op': 'call'}], 'calls-exh'))
                 n_exh += 1
+    # push-back depth 2-3 of every order of NEWLINE / STRING / { / }, then one consumer, then drain
+    pushes = [{'op': 'push', 't': 'NEWLINE', 'v': []}, {'op': 'push', 't': 'STRING', 'v': cps('p')},
+              {'op': 'push', 't': 'BRACE_OPEN', 'v': []}, {'op': 'push', 't': 'BRACE_CLOSE', 'v': []}]
+    consumers = [{'op': 'expect', 't': 'STRING', 'skip': True}, {'op': 'expect', 't': 'STRING', 'skip': False},
+                 {'op': 'expect', 't': 'BRACE_OPEN', 'skip': True}, {'op': 'expect', 't': 'BRACE_CLOSE', 'skip': True},
+                 {'op': 'peek'}, {'op': 'block', 'n': 3, 'brace': True}, {'op': 'block', 'n': 3, 'brace': False},
+                 {'op': 'skipnl', 'n': 3}]
+    drain = [{'op': 'call'}] * 4
+    for text in (['a "b"\n{ x [f]\r\n}', '', '\n\n c \n'] + (CALL_TEXTS[1:] if thorough else [])):
+        for depth in (2, 3):
+            for tup in itertools.product(pushes, repeat=depth):
+                for cons in consumers:
+                    w.write(calls_record(text, toklib.KV_OPTS, list(tup) + [cons] + drain, 'calls-stack'))
+                    n_exh += 1
     for _ in range(20_000 if thorough else 1_500):
         text = rng.choice(CALL_TEXTS) if rng.random() < 0.3 else rand_text(rng)[:40]
         o = toklib.opts_from_bits(rng.randrange(128))
